@@ -3,8 +3,37 @@ import storefam, fsfam
 import agentfam as af
 
 
+def big_record_leg(ctx):
+    """Parameter sets whose records are very long (argon2id digests of 40 000 and 70 000 bytes: first lines beyond 64 KiB) behave
+    like any other: what was written authenticates, is listed, can be updated - through the built binary."""
+    import base64, os, subprocess, fsfam
+    exe = ctx.build_agent()
+    n = 0
+    for length in (40000, 70000):
+        root = os.path.join(ctx.scratch, "bigrec-%d" % length)
+        base = os.path.join(root, "base")
+        os.makedirs(base, exist_ok=True)
+        cfg = os.path.join(root, "store.yaml")
+        open(cfg, "w").write((fsfam.CFG % (base, base64.b64encode(fsfam.HMAC1).decode())).replace("default: 1", "default: 2").replace("length: 32", "length: %d" % length))
+        run = lambda *a: subprocess.run([exe, "--store", cfg] + list(a), stdout=subprocess.PIPE, stderr=subprocess.STDOUT, text=True, timeout=60)
+        steps = [(("init", "root", "first password 1"), 0, None), (("add", "carol", "carols password"), 0, None),
+                 (("authenticate", "carol", "carols password"), 0, None), (("authenticate", "carol", "carols passwore"), "nonzero", None),
+                 (("list",), 0, "carol"), (("update", "carol", "second password"), 0, None), (("authenticate", "carol", "second password"), 0, None),
+                 (("authenticate", "carol", "carols password"), "nonzero", None), (("check",), 0, None), (("remove", "carol"), 0, None),
+                 (("authenticate", "carol", "second password"), "nonzero", None)]
+        for args, want, must_show in steps:
+            r = run(*args)
+            n += 1
+            bad = (want == 0 and r.returncode != 0) or (want == "nonzero" and r.returncode == 0) or (must_show and must_show not in r.stdout)
+            if bad:
+                ctx.violation("C01", "long-record:%s:length-%d" % (args[0], length), "`%s` exited with %d: %s" % (" ".join(args[:2]), r.returncode, r.stdout[-200:]))
+                break
+    ctx.coverage["long_record_steps"] = n
+
+
 def run(ctx):
     thorough = ctx.tier == "thorough"
+    big_record_leg(ctx)
     seeds = [ctx.seed] if not thorough else [ctx.seed, ctx.seed + 1, ctx.seed + 2, ctx.seed + 3]
     # library level: every edge of the bounded Store model + password-length boundary sweep
     storefam.run_family(ctx, seeds=seeds, sweep=True)
@@ -45,6 +74,10 @@ def run(ctx):
     scs.append({"name": "near-miss-frontends", "mode": "", "default": 2, "passwords": near, "steps": steps, "gated": False, "seed": 1,
                 "frontends": True, "http_admin": ["u2", "p2"],
                 "files": {"u1": {"present": True, "pw": "p1", "set": 2, "adm": False}, "u2": {"present": True, "pw": "p2", "set": 1, "adm": True}}})
+    # overlapping logins with different expected verdicts on one interface: each caller gets the verdict of its own credentials
+    from c10 import load_scenario
+    for i in range(2 if not thorough else 8):
+        scs.append(load_scenario("login-storm-%d" % i, "", ctx.seed * 311 + i, clients=24, calls=30 if not thorough else 80, kinds=["auth"]))
     results, events = af.run_scenarios(ctx, scs, "c01")
     before = len(ctx.violations)
     nval = af.judge(ctx, scs, results, events, "c01", "C01")
